@@ -64,6 +64,9 @@ class Tree:
         elif a == "rootver":
             v = st["v"]
             self.root.config["imaging"]["frame rate"] = 2000.0 * v
+            # (a key of the section that feeds computed features)
+            self.root.config["calculation"]["emodulus temperature"] = \
+                20.0 + v
             dclab.set_temporary_feature(
                 self.root, "verif_tmp",
                 np.arange(1, self.n + 1) * 100.0 + v)
@@ -377,7 +380,8 @@ def main(tier, seed, replay=None):
         root_path = scratch / "root.rtdc"
         gen.write_rtdc(root_path, list(range(1, 6)), feats=FEATS)
         plans = [(2, 6, "HHNext"), (2, 8, "FocusNext"), (3, 8, "ShiftNext"),
-                 (4, 6, "ShiftNext"), (2, 4, "TempNext")] if q else [
+                 (4, 6, "ShiftNext"), (2, 4, "TempNext"), (3, 6, "ConfNext")] if q else [
+            (3, 9, "ConfNext"), (4, 6, "ConfNext"),
             (2, 8, "TempNext"), (3, 4, "TempNext"),
             (2, 8, "HHNext"), (3, 6, "HHNext"), (1, 8, "HHNext"),
             (3, 10, "FocusNext"), (2, 10, "FocusNext"), (3, 10, "ShiftNext"),
